@@ -71,10 +71,20 @@ pub fn inflate_zlib(data: &[u8]) -> Result<Vec<u8>, String> {
 	Ok(out)
 }
 
+thread_local! {
+	static BROTLI_WINDOW: std::cell::Cell<u32> = const { std::cell::Cell::new(22) };
+}
+
+/// window size (lgwin, 10..=24) of the Brotli streams this thread writes from now on; every value is a valid
+/// encoder choice and shows in the first byte of the stream
+pub fn set_brotli_window(lgwin: u32) {
+	BROTLI_WINDOW.with(|w| w.set(lgwin.clamp(10, 24)));
+}
+
 pub fn brotli(data: &[u8]) -> Vec<u8> {
 	let mut out = Vec::new();
 	{
-		let mut w = brotli::CompressorWriter::new(&mut out, 4096, 5, 22);
+		let mut w = brotli::CompressorWriter::new(&mut out, 4096, 5, BROTLI_WINDOW.with(|w| w.get()));
 		w.write_all(data).unwrap();
 	}
 	out
